@@ -82,6 +82,26 @@ std::string escape_text(uint32_t cp, int style) {
     return o;
 }
 
+// form 5: the scalars that stand, escaped, directly against the escape of c.cp - one to four in front, one to four behind, drawn
+// from the ranges whose escapes look alike at their first digits (D000-D7FF next to the surrogates D800-DFFF, astral pairs, E000.., ASCII)
+std::vector<uint32_t> run_neighbours(uint32_t cp, unsigned salt) {
+    std::vector<uint32_t> o;
+    uint32_t              h = cp * 2654435761u + salt * 40503u + 17u;
+    const unsigned        n = 1 + (h >> 28) % 4;
+    for (unsigned i = 0; i < n; ++i) {
+        h = h * 1664525u + 1013904223u;
+        switch ((h >> 24) % 6) {
+            case 0: o.push_back(0xD000 + (h >> 4) % 0x800); break;
+            case 1: o.push_back(0x10000 + (h >> 4) % 0x100000); break;
+            case 2: o.push_back(0xE000 + (h >> 4) % 0x1FFE); break;
+            case 3: o.push_back(0x20 + (h >> 4) % 0x5F); break;
+            case 4: o.push_back(0xD700 + (h >> 4) % 0x100); break;
+            default: o.push_back((h >> 4) % 0xD800); break;
+        }
+    }
+    return o;
+}
+
 template <typename Char_T>
 void run_width(const Case &c, pbt::Ctx &ctx) {
     std::vector<uint32_t> expect = ref_encode(c.cp, int(sizeof(Char_T)));
@@ -115,7 +135,23 @@ void run_width(const Case &c, pbt::Ctx &ctx) {
                 pre.push_back((unsigned char)*q);
             }
         }
-        doc += escape_text(c.cp, c.form);
+        if (c.form == 5) {
+            for (uint32_t x : run_neighbours(c.cp, 1)) {
+                doc += escape_text(x, 3);
+                for (uint32_t u : ref_encode(x, int(sizeof(Char_T)))) {
+                    pre.push_back(u);
+                }
+            }
+        }
+        doc += escape_text(c.cp, c.form == 5 ? 3 : c.form);
+        if (c.form == 5) {
+            for (uint32_t x : run_neighbours(c.cp, 2)) {
+                doc += escape_text(x, 3);
+                for (uint32_t u : ref_encode(x, int(sizeof(Char_T)))) {
+                    post.push_back(u);
+                }
+            }
+        }
         if (c.form == 4) {
             doc += " tail\\u0041";
             for (const char *q = " tailA"; *q; ++q) {
@@ -191,7 +227,7 @@ struct H {
             Case c;
             c.cp    = std::get<0>(t);
             c.width = std::get<1>(t);
-            c.form  = (std::get<2>(t) == 79) ? 4 : std::get<2>(t) % 4; // one case in eighty: the long-string form
+            c.form  = (std::get<2>(t) == 79) ? 4 : (std::get<2>(t) >= 64) ? 5 : std::get<2>(t) % 4; // one case in eighty: the long-string form; one in five: a run of escapes
             return c;
         });
     }
@@ -217,7 +253,7 @@ struct H {
         if (c.cp > 0x7F || c.form != 0) {
             ctx.nontrivial();
         }
-        ctx.label(c.form == 0 ? "direct" : c.form == 1 ? "escape-upper" : c.form == 2 ? "escape-lower" : c.form == 3 ? "escape-embedded-mixed" : "escape-deep-in-a-long-string");
+        ctx.label(c.form == 0 ? "direct" : c.form == 1 ? "escape-upper" : c.form == 2 ? "escape-lower" : c.form == 3 ? "escape-embedded-mixed" : c.form == 4 ? "escape-deep-in-a-long-string" : "escape-in-a-run-of-escapes");
         ctx.label(c.cp < 0x80 ? "ascii" : c.cp < 0x800 ? "2-byte-range" : c.cp < 0x10000 ? "bmp" : "astral");
         switch (c.width) {
             case 1: run_width<char>(c, ctx); break;
@@ -248,7 +284,10 @@ struct H {
                         return;
                     }
                 }
-                for (int form = 0; form < 4; ++form) {
+                for (int form = 0; form < 6; ++form) {
+                    if (form == 4 || (form == 5 && (cp % 13) != 5 && cp != 0x10000 && cp != 0xFFFF && cp != 0xD7FF && cp != 0xE000)) {
+                        continue; // (the run-of-escapes form for one scalar in thirteen)
+                    }
                     Case c;
                     c.cp    = cp;
                     c.width = width;
@@ -261,7 +300,7 @@ struct H {
         }
         if (what == "all") {
             ctx.exhaustive      = true;
-            ctx.exhaustive_what = "all 1,112,064 scalar values x 3 widths x 4 forms (sharded)";
+            ctx.exhaustive_what = "all 1,112,064 scalar values x 3 widths x 4 forms, one in thirteen also inside a run of escapes (sharded)";
         }
     }
 };
